@@ -250,7 +250,7 @@ def member_of(ct, keys: Any, k: Any) -> Any:
 @contract(MKR, "make_required", props=("C13", "C07"), group="combinators")
 def _make_required(c):
     ct = c.ct
-    d = c.sym("schema")
+    d = c.sym("schema", "DictSchema")    # dispatch hint only: the body checks isinstance first
     ks = c.sym("keys")
     isdict = M.isinstance_f(ct, d, "DictSchema")
     c.requires(z3.Implies(isdict, z3.And(*S.reach_def(ct, "DictSchema", d))), "schema-reachable")
